@@ -203,6 +203,15 @@ def judge(ctx, module, cfg, shards, timeout=1500):
                     f.write(out)
                 raise ToolFailure("trace spec %s could not consume %s: %s" % (module, shard, out[-2000:]))
             states += dist
+            # L2 binding lines: the design model no longer describes the code (never a violation; reported in the evidence notes)
+            nd = len(re.findall(r'<<\s*"(?:DRIFT|MODEL-DRIFT)"', out))
+            if nd:
+                ctx.drift = getattr(ctx, "drift", 0) + nd
+                m = re.search(r'<<\s*"(?:DRIFT|MODEL-DRIFT)"[^\n]*', out)
+                note = "MODEL-DRIFT: %d event(s) disagree with an L2 design model of %s, e.g. %s" % (nd, module, m.group(0)[:160])
+                if not any(n.startswith("MODEL-DRIFT") and module in n for n in ctx.notes):
+                    ctx.notes.append(note)
+                    log(note)
             if rej:
                 lines = open(shard).read().splitlines()
                 for (ln, case, cfgname, tag) in rej:
